@@ -439,3 +439,23 @@ claim(
     "values along a run, tablerow HTML geometry for every cols value (value level).",
     "DESIGN.md section 5 C13",
 )
+
+claim(
+    "C09",
+    "PRG+STK",
+    "static: parser-loop progress and end-of-stream exit by abstract interpretation of each loop; depth guards on call-graph cycles; worst-case frame budget",
+    "Clauses: each of the 22 parse-time while loops consumes a token on every path back to its "
+    "head (callee summaries 'consumes on every normal return' are derived bottom-up) and exits on "
+    "every path of an abstract iteration run at end of stream; the token stream is a finite list "
+    "whose position only advances; parse_block / extend / copy have the depth-guard shape and "
+    "the liquid tag carries the block depth; every cycle of the resolved call graph (1456 "
+    "resolved call edges) contains Parser.parse_block, or is a structural walk of the finite "
+    "tree in which every render of a block found at run time (partial, macro, parent block) is "
+    "on a context.copy or under context.extend; the worst-case frame count from the call graph "
+    "and the default limits is compared with CPython's recursion limit. 4 open findings: three "
+    "unguarded expression-parser recursions and the default stack budget (6816 > 1000).",
+    "Not decided: regular-expression matching cost ('promptly'); loops over render data (finite "
+    "iterables); termination of user-supplied drops/filters. Call resolution is by role table and "
+    "method name; unresolved calls (builtins) are counted in the evidence.",
+    "DESIGN.md section 5 C09",
+)
